@@ -789,6 +789,56 @@ def def_value(n: Node, var: str):
     return ("other", n.kind)
 
 
+def resolve_expr(cfg: "CFG", node: Node, expr: ast.AST, depth: int = 5, stop: Iterable[str] = ()) -> ast.AST:
+    """copy of ``expr`` in which every local Name that has exactly one reaching
+    definition ``name = <expression>`` at ``node`` is replaced by that expression
+    (recursively, ``depth`` levels), provided the names used by that expression still
+    have the same reaching definitions at ``node`` as they had at the definition (so
+    the substitution is value-preserving).  Parameters, loop targets, unpacked values,
+    augmented assignments and names in ``stop`` stay as they are.  This makes rules
+    insensitive to hoisted sub-expressions and renamed temporaries."""
+    import copy
+
+    reach = cfg.reaching()
+    stop = set(stop)
+
+    def subst(e: ast.AST, at: Node, d: int) -> ast.AST:
+        class T(ast.NodeTransformer):
+            def visit_Lambda(self, n):  # noqa: N802
+                return n
+
+            def visit_Name(self, n: ast.Name):  # noqa: N802
+                if not isinstance(n.ctx, ast.Load) or d <= 0 or n.id in stop:
+                    return n
+                defs = reach[at].get(n.id, frozenset())
+                if len(defs) != 1:
+                    return n
+                (dn,) = defs
+                val = def_value(dn, n.id)
+                if val[0] != "expr":
+                    return n
+                rhs = val[1]
+                here = cfg.defs_at(dn)
+                for x in ast.walk(rhs):
+                    if isinstance(x, ast.Name) and isinstance(x.ctx, ast.Load):
+                        nm = x.id
+                        if nm == n.id:
+                            return n
+                    elif isinstance(x, ast.Attribute) and isinstance(x.ctx, ast.Load):
+                        nm = dotted_name(x)
+                        if nm is None:
+                            continue
+                    else:
+                        continue
+                    if nm in here or reach[dn].get(nm, frozenset()) != reach[at].get(nm, frozenset()):
+                        return n
+                return subst(copy.deepcopy(rhs), dn, d - 1)
+
+        return T().visit(e)
+
+    return subst(copy.deepcopy(expr), node, depth)
+
+
 def build_cfg(func: ast.FunctionDef, raisers: tuple[type, ...] = (ast.Call,)) -> CFG:
     return CFG(func, raisers)
 
@@ -874,4 +924,7 @@ def main(argv=None) -> int:
 
 
 if __name__ == "__main__":
-    sys.exit(main())
+    try:
+        sys.exit(main())
+    except BrokenPipeError:
+        sys.exit(0)
